@@ -169,6 +169,7 @@ def main():
     if rep:
         add(rep["kind"], rep["routine"], rep["degree"], [[Fr(x) for x in r] for r in rep["nodes"]],
             [tuple(Fr(x) for x in p) for p in rep["params"]], rep["regime"], rep.get("verify", False), rep.get("label"))
+        cases[-1]["layout"] = rep.get("layout", "F")
     else:
         HAZ = ["evaluate_barycentric", "evaluate_barycentric_multi", "evaluate_cartesian_multi"]
         CLS = ["Triangle.evaluate_barycentric", "Triangle.evaluate_barycentric_multi", "Triangle.evaluate_cartesian",
@@ -216,6 +217,14 @@ def main():
                 add("eval", rnd.choice(HAZ), d, nodes, anyw, "T")
                 add("eval", rnd.choice(CLS), d, nodes, inside, "T", verify=True)
                 add("eval", rnd.choice(CLS), d, nodes, anyw, "T", verify=False)
+                # the same multi-point calls with the PARAMETER array in C order and as a strided view (the caller's layout
+                # must not change the points; a documented refusal of the layout is accepted)
+                if nv >= 2 and dim <= 2:
+                    for lay in ("C", "strided"):
+                        for routine in ("evaluate_barycentric_multi", "evaluate_cartesian_multi",
+                                        "Triangle.evaluate_barycentric_multi", "Triangle.evaluate_cartesian_multi"):
+                            add("eval", routine, d, nodes, inside, "T", verify=False)
+                            cases[-1]["layout"] = lay
             # edge curves are the restriction of the surface (through the public classes)
             nodes = G.float_net(rnd, rnd.choice([2, 3]), G.tri_nodes_count(d), 0)
             add("edgecurves", "Triangle.edges", d, nodes, [(Fr(0),), (Fr(1),), (H,), (Q,), (Fr(rnd.uniform(0, 1)),)], "T")
@@ -290,6 +299,12 @@ def main():
         ps = c["params"]
         P3 = np.asfortranarray([[float(x) for x in p] for p in ps], dtype=np.float64).reshape(len(ps), 3)
         P2 = np.asfortranarray(P3[:, 1:3])
+        lay = c.get("layout", "F")
+        if lay == "C":
+            P3, P2 = np.ascontiguousarray(P3), np.ascontiguousarray(P2)
+        elif lay == "strided":
+            P3 = np.asfortranarray(np.repeat(P3, 2, axis=0))[::2]
+            P2 = np.asfortranarray(np.repeat(P2, 2, axis=0))[::2]
         vf = c["verify"]
         if routine == "evaluate_barycentric":
             return np.hstack([np.asarray(TH.evaluate_barycentric(arr, d, float(p[0]), float(p[1]), float(p[2]))) for p in ps])
@@ -315,7 +330,7 @@ def main():
         nodes = c["nodes"] if rows is None else [c["nodes"][r] for r in rows]
         return {"kind": c["kind"], "routine": c["routine"], "degree": c["degree"], "nodes": C.jfr(nodes),
                 "params": C.jfr([list(p) for p in c["params"]]), "regime": c["regime"], "verify": c["verify"],
-                "label": c["label"]}
+                "label": c["label"], "layout": c.get("layout", "F")}
 
     def fail_key(c, what):
         if int32 and c["degree"] >= 30:
@@ -327,7 +342,7 @@ def main():
         dim = len(nodes)
         n = G.tri_nodes_count(d)
         small = dim <= 4
-        key = (c["kind"], routine, d, C.jfr(nodes) if small else (c["label"], dim), C.jfr([list(p) for p in c["params"]]), c["verify"])
+        key = (c["kind"], routine, d, C.jfr(nodes) if small else (c["label"], dim), C.jfr([list(p) for p in c["params"]]), c["verify"], c.get("layout", "F"))
         nontrivial = any(x != 0 for r in nodes for x in r)
 
         # ---------------------------------------------------------------- compute_edge_nodes
@@ -404,12 +419,15 @@ def main():
             e_budget_ok(d, ws, int(max(1, max(abs(x) for r in nodes for x in r))).bit_length()) and \
             (not is_cart(routine) or c["cart_exact"])
         res.count(key, nontrivial=nontrivial, kind="eval", routine=routine, regime="E" if exact_regime else "T",
-                  degree_band=band(d), dim=min(dim, 5), nparams=len(ws), verify=c["verify"])
+                  degree_band=band(d), dim=min(dim, 5), nparams=len(ws), verify=c["verify"], layout=c.get("layout", "F"))
         res.sample({"routine": routine, "degree": d, "dim": dim, "regime": "E" if exact_regime else "T",
                     "weights": C.jfr([list(w) for w in ws[:2]])})
         try:
             out = call_impl(c)
         except ValueError as exc:
+            if c.get("layout", "F") != "F" and "contiguous" in str(exc):
+                res.skip("parameter array in %s layout refused (%s)" % (c["layout"], C.config_name()))
+                continue
             res.failure("unexpected-ValueError:" + routine, "degree %d: %r" % (d, exc), rcase(c))
             continue
         if out.shape != (dim, len(ws)):
